@@ -8,6 +8,7 @@ import (
 	"encoding/json"
 	"encoding/pem"
 	"fmt"
+	"io"
 	mrand "math/rand"
 	"os"
 	"os/exec"
@@ -78,11 +79,19 @@ func c08RootFile() string {
 func c08Build(c *c08Case) (*mail.Msg, error) {
 	spec := c.Spec
 	spec.Middleware = nil
+	late := false
 	for _, f := range c.Features {
 		if k, ok := strings.CutPrefix(f, "mw-"); ok {
 			spec.Middleware = append(spec.Middleware, k)
 		}
+		if f == "sign-via-tls-certificate" {
+			spec.SignVia = "tlscert"
+		}
+		if f == "unsigned-render-first" || f == "unsigned-reader-first" {
+			late = true
+		}
 	}
+	spec.SignLate = late
 	m, err := spec.Build(&gen.Env{})
 	if err != nil {
 		return nil, err
@@ -107,6 +116,20 @@ func c08Build(c *c08Case) (*mail.Msg, error) {
 			m.SetImportance(mail.ImportanceHigh)
 		case "mdn":
 			_ = m.RequestMDNTo("mdn@example.com")
+		}
+	}
+	if late {
+		// the message is rendered (preview, archive copy) before signing is configured
+		for _, f := range c.Features {
+			switch f {
+			case "unsigned-render-first":
+				_, _ = m.WriteTo(io.Discard)
+			case "unsigned-reader-first":
+				_, _ = io.Copy(io.Discard, m.NewReader())
+			}
+		}
+		if err := spec.Sign(m); err != nil {
+			return nil, err
 		}
 	}
 	return m, nil
@@ -396,7 +419,7 @@ func runC08Case(r *ev.Run, c c08Case) {
 
 var c08Mutations = []string{"add-alternative", "attach", "embed", "subject", "gen-header", "set-body", "add-to"}
 
-var c08Features = []string{"mw-footer", "mw-header", "mw-encoding", "mw-attach", "empty-genheader", "ignored-invalid-cc", "ignored-invalid-to-partial", "preformatted", "preformatted-multiline", "long-subject", "bcc", "importance", "mdn"}
+var c08Features = []string{"unsigned-render-first", "unsigned-reader-first", "sign-via-tls-certificate", "mw-footer", "mw-header", "mw-encoding", "mw-attach", "empty-genheader", "ignored-invalid-cc", "ignored-invalid-to-partial", "preformatted", "preformatted-multiline", "long-subject", "bcc", "importance", "mdn"}
 
 func genC08(rng *mrand.Rand, id string, p, e, a int, enc string) c08Case {
 	s := genSpec(rng, id, enc, p, e, a)
@@ -436,7 +459,7 @@ func genC08(rng *mrand.Rand, id string, p, e, a int, enc string) c08Case {
 
 func runC08(r *ev.Run, rep *ev.ReplayDoc) ev.Summary {
 	sum := ev.Summary{
-		Rule: "S/MIME-signed messages over enumerated shapes (parts 0-3 x embeds 0-2 x attachments 0-2) and random specs with canonical-CRLF content, every transfer encoding per part and file, part descriptions, empty generic headers, address lists emptied by the IgnoreInvalid setters, (multi-line) preformatted headers, long folded headers, message middlewares that change the body / a header / the part encoding / add an attachment, RSA-2048 and ECDSA-P256 signer certificates with and without the intermediate; each message rendered twice, and a third time after further builder calls (add an alternative / attachment / embed, change subject or header, replace the body, add a recipient). The harness splits multipart/signed with its own MIME reader and verifies the detached CMS SignedData with its own verifier; openssl smime -verify cross-checks (all cases in quick, a sample in thorough). distinct by (shape, features)",
+		Rule: "S/MIME-signed messages over enumerated shapes (parts 0-3 x embeds 0-2 x attachments 0-2) and random specs with canonical-CRLF content, every transfer encoding per part and file, part descriptions, empty generic headers, address lists emptied by the IgnoreInvalid setters, (multi-line) preformatted headers, long folded headers, signing configured through SignWithTLSCertificate, signing configured after the message has been rendered unsigned, message middlewares that change the body / a header / the part encoding / add an attachment, RSA-2048 and ECDSA-P256 signer certificates with and without the intermediate; each message rendered twice, and a third time after further builder calls (add an alternative / attachment / embed, change subject or header, replace the body, add a recipient). The harness splits multipart/signed with its own MIME reader and verifies the detached CMS SignedData with its own verifier; openssl smime -verify cross-checks (all cases in quick, a sample in thorough). distinct by (shape, features)",
 		Assumptions: []string{
 			"the signed entity is the first body part exactly as emitted, without the CRLF that belongs to the following delimiter (RFC 1847)",
 			"trust in the harness CMS verifier is established per run against OpenSSL 3 on every cross-checked message (a disagreement in the accepting direction is a harness error)",
